@@ -617,6 +617,8 @@ func runC05(c *core.Ctx, ck *Check) {
 					s = gen.EcoNum(j.eco, r)
 				case 3:
 					return r.IntN(10000)
+				case 5:
+					s = gen.LogNum(r, 30)
 				default:
 					return vals[r.IntN(len(vals))]
 				}
